@@ -73,8 +73,19 @@ def run(R):
         c1, c2 = R.call(h, "atan", [a], opts=o), R.call(h, "atan", [-a], opts=o)
         return Ob("atan/odd", "verify", [a], [c1, c2], z3.And(a < val(LIM), a > val(-LIM), a != 0), c2.out == -c1.out,
                   abstract=ab, comm_lemmas=False, note="atan(-x) == -atan(x) exactly for every |x| < 2^31")
+    def odd_split():
+        # the abstraction is not enough (or the code changed): decide oddness with the real arithmetic per segment of |x| (the
+        # implementation's own branch points), the reciprocal segment |x| >= 65536 included
+        out = []
+        cuts = [1, SEG1, 45056, 77824, SEG5, 1 << 32, LIM]
+        for lo, hi in zip(cuts[:-1], cuts[1:]):
+            c1, c2 = R.call(h, "atan", [a]), R.call(h, "atan", [-a])
+            out.append(Ob("atan/odd/|x| in [%d,%d)" % (lo, hi), "verify", [a], [c1, c2], z3.And(a >= val(lo), a < val(hi)),
+                          c2.out == -c1.out, portfolio=("z3", "cvc5", "cvc5int"), timeout=120 if R.quick() else 600,
+                          note="atan(-x) == -atan(x) exactly on one segment of the implementation, real arithmetic"))
+        return out
     ob = build_odd(True)
-    ob.fallback = lambda: build_odd(False)
+    ob.fallback = odd_split
     R._add(ob)
     c0 = R.call(h, "atan", [val(0)])
     R.verify("atan/odd-at-zero", [], [c0], z3.BoolVal(True), c0.out == val(0))
